@@ -89,7 +89,7 @@ fn check_key(key: &[u8], events: &[Event], budget: Duration) -> Verdict {
     if n == 0 {
         return Verdict::Linearizable;
     }
-    if n > 63 {
+    if n > 127 {
         // keep sub-histories short; callers bound the number of operations per key
         return Verdict::Timeout { key: key.to_vec() };
     }
@@ -119,11 +119,11 @@ fn check_key(key: &[u8], events: &[Event], budget: Duration) -> Verdict {
         }
     }
     let deadline = Instant::now() + budget;
-    let full: u64 = if n == 64 { u64::MAX } else { (1u64 << n) - 1 };
-    let mut seen: HashSet<(u64, u32)> = HashSet::new();
+    let full: u128 = (1u128 << n) - 1;
+    let mut seen: HashSet<(u128, u32)> = HashSet::new();
     // iterative DFS: (mask of linearised ops, current value)
-    let mut stack: Vec<(u64, u32)> = vec![(0, 0)];
-    let mut best_mask = 0u64;
+    let mut stack: Vec<(u128, u32)> = vec![(0, 0)];
+    let mut best_mask = 0u128;
     let mut steps = 0u64;
     while let Some((mask, value)) = stack.pop() {
         if mask == full {
@@ -145,14 +145,14 @@ fn check_key(key: &[u8], events: &[Event], budget: Duration) -> Verdict {
         // an op may be linearised next iff no other pending op returned before it was called
         let mut min_ret = u64::MAX;
         for (i, e) in events.iter().enumerate() {
-            if mask & (1 << i) == 0 && e.ret < min_ret {
+            if mask & (1u128 << i) == 0 && e.ret < min_ret {
                 min_ret = e.ret;
             }
         }
         // open operations (never returned) may also be left out entirely: treat as done
         let mut all_rest_open = true;
         for (i, e) in events.iter().enumerate() {
-            if mask & (1 << i) == 0 && e.ret != u64::MAX {
+            if mask & (1u128 << i) == 0 && e.ret != u64::MAX {
                 all_rest_open = false;
                 let _ = i;
             }
@@ -161,18 +161,18 @@ fn check_key(key: &[u8], events: &[Event], budget: Duration) -> Verdict {
             return Verdict::Linearizable;
         }
         for (i, e) in events.iter().enumerate() {
-            if mask & (1 << i) != 0 || e.call > min_ret {
+            if mask & (1u128 << i) != 0 || e.call > min_ret {
                 continue;
             }
             if e.is_write {
-                stack.push((mask | (1 << i), vals[i]));
+                stack.push((mask | (1u128 << i), vals[i]));
             } else if vals[i] == value {
-                stack.push((mask | (1 << i), value));
+                stack.push((mask | (1u128 << i), value));
             }
         }
     }
     // no linearisation: report the operations that could not be placed after the best prefix
-    let mut stuck: Vec<&Event> = events.iter().enumerate().filter(|(i, _)| best_mask & (1 << i) == 0).map(|(_, e)| e).collect();
+    let mut stuck: Vec<&Event> = events.iter().enumerate().filter(|(i, _)| best_mask & (1u128 << i) == 0).map(|(_, e)| e).collect();
     stuck.sort_by_key(|e| e.call);
     let first = stuck.first().map(|e| describe(e)).unwrap_or_default();
     let mut witness: Vec<String> = events.iter().map(describe).collect();
